@@ -2,7 +2,7 @@
 import ast
 
 from ..model import AnalysisError, dotted, unparse
-from ..util import sym_env, FACTS, FACTS_I, U, enum_paths, walk_no_nested, is_yield_call
+from ..util import resolved_text, sym_env, FACTS, FACTS_I, U, enum_paths, walk_no_nested, is_yield_call
 from ..paths import call_attr, call_name
 
 R = 'scales/resurrector.py'
@@ -204,7 +204,7 @@ def r4(ctx):
     ctx.ob('C09.R4', f, 'Close clears the down mark', w.get('self._down_on') == 'None', 'writes: %s' % w, 'a closed resurrector is not "down"; a later Open starts fresh')
     if ('self.next_sink', True) in fs:
       un = [e for e in ev if e.kind == 'call' and call_attr(e.node) == 'Unsubscribe' and 'self._OnSinkFaulted' in U(e.node)]
-      cl = [e for e in ev if e.kind == 'call' and U(e.node.func) == 'self.next_sink.Close']
+      cl = [e for i_, e in enumerate(ev) if e.kind == 'call' and call_attr(e.node) == 'Close' and resolved_text(ev, i_, e.node.func.value) == 'self.next_sink']
       ctx.ob('C09.R4', f, 'Close unsubscribes from and closes the current sink', len(un) == 1 and len(cl) == 1, 'unsubscribes %d, closes %d' % (len(un), len(cl)),
              why + ' (a fault of the sink being closed must not start a new retry loop)')
 
